@@ -498,7 +498,8 @@ class Codec:
             return obj
         if isinstance(t, U):
             if v is None:
-                return None
+                # docs are silent on null inside a *tagged* union; the implementations write {"null": null} and only read that form
+                return {"null": None} if (len(t.cases) > 1 and self.union_tagged(t)) else None
             i, inner = v
             j = self.to_json(t.cases[i][1], inner)
             if self.union_tagged(t):
@@ -603,6 +604,8 @@ class Codec:
                 out.append(self.from_json(ft, j[fn]))
             return out
         if isinstance(t, U):
+            if j == {"null": None} and t.nullable and len(t.cases) > 1:
+                return None
             if j is None:
                 if t.nullable:
                     return None
@@ -739,6 +742,8 @@ class Codec:
                         if d:
                             return d
                 return None
+        if isinstance(t, U) and t.nullable and got in (None, {"null": None}) and ref in (None, {"null": None}):
+            return None      # both spellings of a null union value are accepted (don't-care)
         if isinstance(t, U) and ref is not None and got is not None:
             if len(t.cases) > 1 and self.union_tagged(t):
                 if not (isinstance(got, dict) and len(got) == 1 and isinstance(ref, dict) and set(got) == set(ref)):
